@@ -51,6 +51,7 @@ def dispatch1 (op : String) (j : Json) : R Json :=
   | "subsetRun" => hSubsetRun j
   | "phenoParse" => hPhenoParse j
   | "uniqNames" => hUniqNames j
+  | "floatTok" => hFloatTok j
   | "noiseVar" => hNoiseVar j
   | "geneticRaw" => hGeneticRaw j
   | "ldPlan" => hLdPlan j
